@@ -6,6 +6,7 @@ import (
 	"sort"
 	"testing"
 
+	"github.com/tsuna/gohbase"
 	"github.com/tsuna/gohbase/region"
 	"pgregory.net/rapid"
 
@@ -126,6 +127,34 @@ func c16Run(c c16Case) Outcome {
 	if long {
 		out.Labels = append(out.Labels, "same_table_pair_of_different_keys_of_8_or_more_bytes")
 	}
+	// the lookup search keys as the client itself builds them: "table,key,:" for the table and row of a request -
+	// whatever the capacity of the caller's table slice, and however many keys were built from the same slice
+	for i := range ns {
+		for j := range ns {
+			tb := make([]byte, len(ns[i].Table), len(ns[i].Table)+len(ns[i].Key)+len(ns[j].Key)+16)
+			copy(tb, ns[i].Table)
+			spare := tb[:cap(tb)]
+			for x := len(tb); x < len(spare); x++ {
+				spare[x] = '#'
+			}
+			k1 := gohbase.VerifCreateRegionSearchKey(tb, ns[i].Key)
+			k2 := gohbase.VerifCreateRegionSearchKey(tb, ns[j].Key)
+			w1 := nameParts{Table: ns[i].Table, Key: ns[i].Key, ID: evid.B(":")}.name()
+			w2 := nameParts{Table: ns[i].Table, Key: ns[j].Key, ID: evid.B(":")}.name()
+			if !bytes.Equal(k1, w1) || !bytes.Equal(k2, w2) {
+				return viol("search-key-wrong", "search keys built for rows %q and %q of table %q (one table slice, spare capacity %d): %q and %q, expected %q and %q",
+					ns[i].Key, ns[j].Key, ns[i].Table, cap(tb)-len(tb), k1, k2, w1, w2)
+			}
+			if !bytes.Equal(tb, ns[i].Table) || bytes.Count(spare[len(tb):], []byte{'#'}) != len(spare)-len(tb) {
+				return viol("search-key-writes-into-callers-table", "building search keys for rows %q and %q wrote into the caller's table slice %q (now %q)", ns[i].Key, ns[j].Key, ns[i].Table, spare)
+			}
+			// and they order like the names they stand for
+			want := tupleCmp(nameParts{Table: ns[i].Table, Key: ns[i].Key, ID: evid.B(":")}, nameParts{Table: ns[i].Table, Key: ns[j].Key, ID: evid.B(":")})
+			if r, p := safeCompare(k1, k2); p != nil || sign(r) != sign(want) {
+				return viol("search-key-order", "Compare(%q,%q)=%d (panic %v), tuple order says %d", k1, k2, r, p, want)
+			}
+		}
+	}
 	// transitivity directly on the implementation (independent of the oracle)
 	for i := range ns {
 		for j := range ns {
@@ -228,7 +257,8 @@ func TestC16_Generated(t *testing.T) {
 			"prefix-related tables, comma/neighbour bytes in keys, long keys (up to 40 bytes, word-aligned common prefixes, one byte perturbed "+
 			"anywhere incl. top-bit flips), ids of different lengths and "+
 			"search keys, names that are byte prefixes of other names; all ordered pairs (also as views into one shared buffer: back to back, and prefix views), all triples (transitivity) and sortedness are checked "+
-			"against the component-wise tuple order. Non-trivial = some pair has prefix-related "+
+			"against the component-wise tuple order; for every pair the two lookup search keys are also built by the client's own builder (hook VerifCreateRegionSearchKey) from ONE table slice with spare capacity: "+
+			"both must read table,key,: afterwards, order like their tuples, and the caller's slice must be untouched. Non-trivial = some pair has prefix-related "+
 			"tables, a comma in a key, or raw byte order disagreeing with tuple order; distinct by "+
 			"hash of the name list")
 	Drive(t, rec, false, func(t *rapid.T) c16Case {
